@@ -150,7 +150,38 @@ def _prefix():
             ops.append((draw(st.sampled_from(['pred_append', 'succ_append'])), a + draw(st.integers(1, n - 1)),
                         o + draw(st.integers(0, 1)), 'L'))
         return ops
-    return st.one_of(flat, flat, deep())
+
+    @st.composite
+    def weave(draw):
+        # a few tasks, some of them nested, a chain of links threaded through them in random order, and then a call that
+        # tries to close the longest circle it can (flag 'C'): circles that pass through the hierarchy - leave a summary
+        # task, come back through one of its descendants - are the ones a cycle check with a shortcut overlooks
+        k = draw(st.integers(4, 6))
+        base = draw(st.integers(0, 5))
+        idx = [base + i for i in range(k)]
+        ops = []
+        for i in range(1, k):
+            if draw(st.integers(0, 2)) == 0:
+                ops.append(('append', idx[draw(st.integers(0, i - 1))], idx[i], 'L'))
+        if draw(st.booleans()):
+            ops.append(('append', draw(wi), idx[0], 'L'))
+        perm = draw(st.permutations(idx))
+        for a, b in zip(perm, perm[1:]):
+            if draw(st.booleans()):
+                ops.append(('succ_append', a, b, ''))
+            else:
+                ops.append(('pred_append', b, a, ''))
+        for _ in range(draw(st.integers(1, 2))):
+            kind = draw(st.sampled_from(['pred_append', 'succ_append', 'lshift', 'rshift', 'set_preds', 'set_succs']))
+            r, a = draw(st.sampled_from(perm)), draw(st.sampled_from(perm))
+            if kind.endswith('append'):
+                ops.append((kind, r, a, 'C'))
+            elif kind.endswith('shift'):
+                ops.append((kind, r, [a], 'C'))
+            else:
+                ops.append((kind, r, [a], 'list', 'C'))
+        return ops
+    return st.one_of(flat, flat, deep(), weave())
 
 
 @st.composite
